@@ -228,6 +228,7 @@ class HPRun:
         names, _ = hp_names(ctx)
         self.names = names
         self.calls: list[tuple[ast.Call, str, dict[str, Poly], dict[str, Poly]]] = []
+        self._seen: set = set()
         outer = self
 
         def track(t: ast.AST) -> str | None:
@@ -273,7 +274,10 @@ class HPRun:
                             if k.arg:
                                 args[k.arg] = self.value(s, k.value)
                         cur = {n: Poly.atom(f'hp:{n}({dict(s.env)["self._" + n].canon()};{dict(s.env)["self._steps"].canon()})') for n in names}
-                        outer.calls.append((c, c.func.attr, args, cur))
+                        key = (id(c), tuple(sorted((k, v.canon()) for k, v in args.items())), tuple(sorted((k, v.canon()) for k, v in cur.items())))
+                        if key not in outer._seen:
+                            outer._seen.add(key)
+                            outer.calls.append((c, c.func.attr, args, cur))
                 return s
         init = {f'self._{n}': Poly.atom(f'F_{n}') for n in names}
         init['self._steps'] = Poly.atom('S')
@@ -286,7 +290,7 @@ def rule_damparg(ctx: Ctx, funcs: list[str]) -> None:
     state (step counter, backing field) current at the call."""
     p = ctx.prog
     ctx.rule('DOM-DAMPARG', 'compute_*_inv / preconditioned_grad receive damping = the damping property evaluated in the state current at the call '
-                            '(after any restore of the counter and of the backing field)', floor=6)
+                            '(after any restore of the counter and of the backing field)', floor=2 * len(funcs))
     for fn in funcs:
         f = p.get_func(fn)
         r = HPRun(ctx, f)
@@ -298,6 +302,13 @@ def rule_damparg(ctx: Ctx, funcs: list[str]) -> None:
             if got is None:
                 ctx.violate('DOM-DAMPARG', f, norm(c)[:120], f'{norm(c.func)} is called without the damping argument: the layer default (0.001) would be used instead of the preconditioner\'s damping', c)
             else:
+                fin = r.final
+                if fin is not None and 'load' in fn.split('.')[-1]:
+                    fenv = dict(fin.env)
+                    end = Poly.atom(f'hp:damping({fenv["self._damping"].canon()};{fenv["self._steps"].canon()})')
+                    ctx.check(end == want, 'DOM-DAMPARG', f, f'{fn.split(".")[-1]}: no restore of counter/damping after {m}', norm(c)[:120] + ' [late restore]',
+                              f'{norm(c.func)} runs while the damping state is {want.canon()}, but {fn.split(".")[-1]}() leaves it as {end.canon()}: '
+                              'the step counter or the damping is restored only after the second-order data was recomputed', c)
                 ctx.check(got == want, 'DOM-DAMPARG', f, f'{fn.split(".")[-1]}: {m}(damping = current damping property)', norm(c)[:120],
                           f'{norm(c.func)} receives damping = {got.canon()} but the damping property in the state current at the call is {want.canon()} '
                           '(stale value, e.g. read before the step counter / damping were restored, or another quantity)', c)
